@@ -692,6 +692,14 @@ pub fn oracle_upconverted(g: &GMap, k: &KMap, glyphs: &BTreeSet<String>, g2: &GM
 /// property demands (copies with identical members under first/second-side names) is itself
 /// invalid by the first sentence of the property, or a new name would be the bare prefix.
 pub fn refusal_justified(g: &GMap, k: &KMap, glyphs: &BTreeSet<String>) -> bool {
+    refusal_reason(g, k, glyphs, true)
+}
+/// the demanded copies overlap with each other or with existing groups of their side: every
+/// conforming result is invalid, whatever the new names are
+pub fn result_necessarily_invalid(g: &GMap, k: &KMap, glyphs: &BTreeSet<String>) -> bool {
+    refusal_reason(g, k, glyphs, false)
+}
+fn refusal_reason(g: &GMap, k: &KMap, glyphs: &BTreeSet<String>, bare_name_counts: bool) -> bool {
     let (c1, c2) = spec_cands(g, k, glyphs);
     for (pre, cs, pat) in [(K1, &c1, MMKL), (K2, &c2, MMKR)] {
         let mut seen: BTreeSet<&str> = BTreeSet::new();
@@ -705,7 +713,9 @@ pub fn refusal_justified(g: &GMap, k: &KMap, glyphs: &BTreeSet<String>) -> bool 
             }
         }
         for c in cs.iter() {
-            if c.replace(pat, "").is_empty() {
+            // the reference naming turns a group called just "@MMK_L_" into the bare prefix
+            // (unless that name is taken): a refusal for that reason follows the reference
+            if bare_name_counts && c.replace(pat, "").is_empty() {
                 return true;
             }
             for m in &g[c] {
@@ -718,8 +728,8 @@ pub fn refusal_justified(g: &GMap, k: &KMap, glyphs: &BTreeSet<String>) -> bool 
     false
 }
 
-/// Class predicate "PairCollision" (input-determined): with the new names made the way the
-/// reference algorithm makes them (ascending candidate order, legacy prefix removed, first free
+/// Former class "PairCollision" (repaired by 3ac97c0; counted for the evidence only, nothing is
+/// suppressed any more): with the new names made the way the reference algorithm made them (ascending candidate order, legacy prefix removed, first free
 /// of name, name1, name2, ...), two first-level kerning keys or two keys of one row coincide
 /// after renaming.  Used only to classify an oracle failure, never to judge one.
 pub fn class_pair_collision(g: &GMap, k: &KMap, interned: &BTreeSet<String>) -> bool {
@@ -778,7 +788,7 @@ pub fn judge(c: &Case, ob: &Observed) -> Verdict {
     if let (Some(g), true) = (&c.groups, legacy) {
         if groups_ok(g) {
             f21 = spec_cands(g, kin, &glyphs) != spec_cands(g, kin, &interned);
-            pc = class_pair_collision(g, kin, &interned);
+            pc = class_pair_collision(g, kin, &glyphs);
             if let LoadOut::Ok(g2, _) = &ob.load {
                 converted = g2.len() > g.len();
             }
@@ -799,7 +809,7 @@ pub fn judge(c: &Case, ob: &Observed) -> Verdict {
         SaveOut::Other(_) => O::L(vec![O::N(8)]),
         SaveOut::Panicked(_) => O::L(vec![O::N(9)]),
     };
-    let expected = O::L(vec![load_o, save_o, O::N(f21 as u64), O::N(pc as u64)]);
+    let expected = O::L(vec![load_o, save_o]);
 
     // ---- the property oracle
     match &ob.load {
@@ -825,17 +835,7 @@ pub fn judge(c: &Case, ob: &Observed) -> Verdict {
             (Some(g), true) => {
                 let r = oracle_upconverted(g, kin, &glyphs, g2, k2);
                 if r != Conv::Ok {
-                    // known classes: judged with the interner's content instead of the glyph names (F21),
-                    // and the overwritten pair (PairCollision)
-                    let ri = if f21 { oracle_upconverted(g, kin, &interned, g2, k2) } else { Conv::Ok };
-                    let what = format!("{:?}", r);
-                    if f21 && (ri == Conv::Ok || (matches!(ri, Conv::PairsFail(_)) && pc)) {
-                        failures.push(("F21".into(), what));
-                    } else if !f21 && matches!(r, Conv::PairsFail(_)) && pc {
-                        failures.push(("PairCollision".into(), what));
-                    } else {
-                        failures.push(("".into(), what));
-                    }
+                    failures.push(("".into(), format!("{:?}", r)));
                 }
             }
         }
@@ -853,18 +853,14 @@ pub fn judge(c: &Case, ob: &Observed) -> Verdict {
                 if !ok || !legacy {
                     failures.push(("".into(), "GroupsUpconversionFailure outside a conversion of valid groups".into()));
                 } else if !refusal_justified(g, kin, &glyphs) {
-                    if f21 && refusal_justified(g, kin, &interned) {
-                        failures.push(("F21".into(), "valid legacy groups refused (judged by the interned names)".into()));
-                    } else {
-                        failures.push(("".into(), "valid legacy groups refused although the demanded result is valid".into()));
-                    }
+                    failures.push(("".into(), "valid legacy groups refused although the demanded result is valid".into()));
                 }
             }
             _ => {}
         }
         if legacy && ok {
             if let LoadOut::Ok(..) = &ob.load {
-                if refusal_justified(g, kin, &glyphs) && !f21 {
+                if result_necessarily_invalid(g, kin, &glyphs) {
                     failures.push(("".into(), "conversion accepted although the demanded result is invalid".into()));
                 }
             }
@@ -1313,7 +1309,7 @@ fn print_observed(c: &Case, ob: &Observed, v: &Verdict) {
     println!("load: {:?}", ob.load);
     println!("save of a font with these groups: {:?}", ob.save_direct);
     println!("save of the loaded font: {:?} (reloaded equal: {})", ob.resave, ob.resave_same);
-    println!("classes: F21={} PairCollision={}", v.f21, v.pc);
+    println!("regression input of a repaired defect: former F21={} former PairCollision={}", v.f21, v.pc);
     if v.failures.is_empty() {
         println!("property oracle: holds");
     }
@@ -1463,7 +1459,7 @@ pub fn main(a: &Args) {
         "exhaustive_universe_1": plan.exh.len(), "exhaustive_universe_2_slice": plan.exh2_len(),
         "exhaustive_stride_universe_2": plan.exh_stride, "exhaustive_member_variants": plan.exh.mvs, "random": plan.random,
         "converted": conv, "load_refused_invalid_groups": inv, "load_refused_upconversion_failure": upf,
-        "load_other": other, "in_class_F21": f21, "in_class_PairCollision": pc,
+        "load_other": other, "inputs_in_former_class_F21": f21, "inputs_in_former_class_PairCollision": pc,
         "distinct_nontrivial": distinct.len(), "oracle_failures": fails.len(),
         "universes": UNIVERSES.iter().map(|u| u.to_vec()).collect::<Vec<_>>(),
     });
